@@ -27,5 +27,5 @@ MANIFEST = {
     'category': 'proof',
     'technique': 'contract-based deductive verification: pyvc VCs with quantified loop invariants (z3/cvc5) for all degrees; symbolic execution of the real kernel + exact rational-function identities against the Cox-de Boor recursion (sympy) per degree; exact-rational oracle as bounded stand-in for the numpy routes',
     'text': 'The compiled basis kernel is verified from its Cython source. For all p<64 and all derivative counts every array access is in bounds, every divisor is a positive knot difference, the values are non-negative and the span is the unique right-continuous one. For p<=4 (5 in thorough) the kernel output is proved identical, entry by entry and for all knots and parameter values, to the derivatives (orders 0..p+2) of the Cox-de Boor recursion, which gives sum-to-one, zero-sum derivatives and vanishing orders above p. active_ev/single_ev/collocation/collocation_derivs/splev routes, compute_values_derivs and tensor grid evaluation are compared with an exact rational oracle at knots, end points, adjacent doubles and interior points (bounded).',
-    'note': 'double as real in the proofs; exact identities finite in p; fac overflow for p>=13 excluded; sympy/z3/cvc5 trusted; bounded domain in evidence.',
+    'note': 'double as real in the proofs; exact identities finite in p; fac overflow for p>=13 excluded; sympy/z3/cvc5 trusted; bounded domain in evidence. Bounded tier also: float32/integer and strided point arrays on the routes that accept them.',
 }
